@@ -836,7 +836,8 @@ package webrtc
 //@ ensures err == nil
 //@ func (*ICETransport).AddRemoteCandidate
 //@ trusted
-//@ props C03
+//@ props C03 C25
+//@ ghost remoteCands += 1
 //@ ensures err == nil
 //@ func (*PeerConnection).startRTPSenders
 //@ trusted
